@@ -151,6 +151,78 @@ func (s *Sim) checkBegin(b *blockObs, before, after *Dump) {
 				s.violate("C26", "fee-distribution-debits-account", "begin-block", fmt.Sprintf("height %d: account %s lost %s during BeginBlock", h, a, d))
 			}
 		}
+		// the proposer's part goes to the previous block's proposer: its reward delegators receive
+		// floor(part * share / 100) each and the node's output address (or the operator of a node
+		// without one) the remainder
+		if featureOn(codec.NonCustodialUpdateKey, h) {
+			var prev []byte
+			for _, spec := range s.drv.Log {
+				if spec.Height == h-1 {
+					prev = spec.Proposer
+				}
+			}
+			gotDao := va.Balance(daoAddr).Sub(vb.Balance(daoAddr))
+			cut := out.Sub(gotDao)
+			if pvz, ok := vb.Validators[sdk.Address(prev).String()]; ok && prev != nil && cut.IsPositive() {
+				want := map[string]sdk.BigInt{}
+				dels := pvz.RewardDelegators
+				if !featureOn(codec.RewardDelegatorsKey, h) {
+					dels = nil
+				}
+				total := uint32(0)
+				for _, sh := range dels {
+					total += sh
+				}
+				remains := cut
+				if total <= 100 {
+					for _, a := range sortedAddrs(dels) {
+						alloc := sdk.NewIntFromBigInt(new(big.Int).Quo(new(big.Int).Mul(cut.BigInt(), big.NewInt(int64(dels[a]))), big.NewInt(100)))
+						if alloc.IsPositive() {
+							if c, ok := want[a]; ok {
+								want[a] = c.Add(alloc)
+							} else {
+								want[a] = alloc
+							}
+						}
+						remains = remains.Sub(alloc)
+					}
+					primary := sdk.Address(prev).String()
+					if pvz.OutputAddress != nil {
+						primary = pvz.OutputAddress.String()
+					}
+					if remains.IsPositive() {
+						if c, ok := want[primary]; ok {
+							want[primary] = c.Add(remains)
+						} else {
+							want[primary] = remains
+						}
+					}
+					for a, d := range deltas {
+						if a == feeAddr || a == daoAddr || a == poolAddr {
+							continue
+						}
+						w, ok := want[a]
+						if !ok {
+							w = sdk.ZeroInt()
+						}
+						if !d.Equal(w) {
+							s.violate("C26", "proposer-cut-split", "begin-block", fmt.Sprintf("height %d: proposer part %s of fees %s for node %s (delegators %v, output %s): account %s received %s, expected %s", h, cut, fees, sdk.Address(prev), dels, pvz.OutputAddress, a, d, w))
+							break
+						}
+					}
+					for a, w := range want {
+						if d, ok := deltas[a]; (!ok && w.IsPositive()) || (ok && a != daoAddr && a != feeAddr && !d.Equal(w)) {
+							s.violate("C26", "proposer-cut-split", "begin-block", fmt.Sprintf("height %d: proposer part %s for node %s (delegators %v): account %s received %v, expected %s", h, cut, sdk.Address(prev), dels, a, deltas[a], w))
+							break
+						}
+					}
+					s.res.Probe("proposer_cut_split_checked")
+					if len(dels) > 1 {
+						s.res.Probe("proposer_cut_split_with_several_delegators")
+					}
+				}
+			}
+		}
 		s.res.Probe("fees_distributed")
 		s.res.Case(fmt.Sprintf("feesplit/dao=%d/prop=%d/recipients=%d", daoPct, propPct, len(deltas)))
 	} else {
@@ -318,6 +390,30 @@ func (s *Sim) checkNodeTx(t *txCtx, changed bool) {
 		if !a.StakedTokens.Equal(b.StakedTokens) || a.Status != b.Status || a.Jailed != b.Jailed || !a.OutputAddress.Equals(b.OutputAddress) {
 			s.violate("C23", "tx-changed-another-node", rec.Step.Kind, fmt.Sprintf("height %d: tx id %d targeting %s changed node %s", h, rec.Step.ID, target, addr))
 		}
+	}
+	// ---- C14: the message took effect on the node record only if the signer is the operator or
+	// the node's (current, for an existing node; declared, for a new one) output address. A key
+	// that merely names itself in the message (MsgStake lists its Output among the signers) is a
+	// declared signer for the ante handler but has no authority over an existing node.
+	recordChanged := existed != exists
+	if existed && exists {
+		recordChanged = !nv.StakedTokens.Equal(pv.StakedTokens) || !nv.OutputAddress.Equals(pv.OutputAddress) || !delegatorsEqual(nv.RewardDelegators, pv.RewardDelegators) ||
+			fmt.Sprint(nv.Chains) != fmt.Sprint(pv.Chains) || nv.ServiceURL != pv.ServiceURL || nv.Status != pv.Status || nv.Jailed != pv.Jailed || !nv.UnstakingCompletionTime.Equal(pv.UnstakingCompletionTime)
+	}
+	if recordChanged || t.vb.Waiting[target] != t.va.Waiting[target] {
+		ncust := featureOn(codec.NonCustodialUpdateKey, h)
+		authorised := rec.SignAddr == target
+		if existed {
+			if ncust && pv.OutputAddress != nil && pv.OutputAddress.String() == rec.SignAddr {
+				authorised = true
+			}
+		} else if rec.Step.Kind == "node_stake" && ncust && rec.Step.Output >= 0 && s.key(rec.Step.Output).String() == rec.SignAddr {
+			authorised = true
+		}
+		if !authorised {
+			s.violate("C14", "message-effect-by-unauthorised-signer", rec.Step.Kind, fmt.Sprintf("height %d: tx id %d (%s) signed by %s changed node %s (existing: %v, current output %s); the signer is neither the operator nor that output address", h, rec.Step.ID, rec.Step.Kind, rec.SignAddr, target, existed, pv.OutputAddress))
+		}
+		s.res.Case(fmt.Sprintf("node-effect/%s/existing=%v/signer-is-operator=%v", rec.Step.Kind, existed, rec.SignAddr == target))
 	}
 	switch rec.Step.Kind {
 	case "node_stake":
